@@ -132,7 +132,7 @@ type Conf struct {
 	SyncStdout  io.Writer
 	SyncStderr  io.Writer
 	Stderr      io.Writer
-	Translate   bool // custom runner with a mount-style address translation
+	Translate   bool   // custom runner with a mount-style address translation
 	USC         string // "" no UnixSocketConfig | empty | tmpdir (TempDir=/run/hostsock, created here)
 }
 
@@ -603,9 +603,37 @@ func (r *Run) SpawnRaw(name, path string, env []string, opts *k.SpawnOpts) (*Raw
 // configuration asks for transport security, no protocol bytes may ever appear
 // in clear on any socket - neither the HTTP/2 client preface (gRPC, also inside
 // yamux frames) nor net/rpc method names.
-func (r *Run) WatchPlaintext(ctx string) {
+func (r *Run) WatchPlaintext(ctx string) { r.WatchWire(ctx, false) }
+
+// MuxStreams is what the wire sniffer learnt about yamux streams carried in
+// clear framing on a socket (the multiplexed gRPC broker's main connection).
+type MuxStreams struct {
+	mu      sync.Mutex
+	Streams map[string]bool // "<socket>/<stream id>" seen
+	TLS     int             // first payloads that were a TLS handshake record
+	Clear   int             // first payloads that were anything else
+}
+
+func (m *MuxStreams) Counts() (streams, tls, clear int) {
+	m.mu.Lock()
+	defer m.mu.Unlock()
+	return len(m.Streams), m.TLS, m.Clear
+}
+
+// WatchWire is WatchPlaintext plus, with mux set, an on-path observer of the
+// yamux framing: with transport security configured, every stream's first
+// payload in either direction must be a TLS handshake record - a stream that
+// starts with anything else is an unauthenticated connection.
+func (r *Run) WatchWire(ctx string, mux bool) *MuxStreams {
 	markers := [][]byte{[]byte("PRI * HTTP/2.0"), []byte("Plugin.Do"), []byte("Control.Ping"), []byte("Dispenser.Dispense")}
 	tails := map[string][]byte{}
+	ms := &MuxStreams{Streams: map[string]bool{}}
+	type dirState struct {
+		buf    []byte
+		notMux bool
+		seen   map[uint32]bool // streams whose first payload in this direction was classified
+	}
+	dirs := map[string]*dirState{}
 	var mu sync.Mutex
 	r.W.OnConnWrite = func(e *k.Endpoint, data []byte) {
 		if o := e.Owner(); o != nil && o.Name == "intruder" {
@@ -624,7 +652,65 @@ func (r *Run) WatchPlaintext(ctx string) {
 			buf = buf[len(buf)-32:]
 		}
 		tails[key] = buf
+		if !mux {
+			return
+		}
+		d := dirs[key]
+		if d == nil {
+			d = &dirState{seen: map[uint32]bool{}}
+			dirs[key] = d
+		}
+		if d.notMux {
+			return
+		}
+		d.buf = append(d.buf, data...)
+		for len(d.buf) >= 12 {
+			// yamux header: version, type, flags(2), stream id(4), length(4)
+			if d.buf[0] != 0 || d.buf[1] > 3 {
+				d.notMux, d.buf = true, nil
+				return
+			}
+			typ := d.buf[1]
+			id := uint32(d.buf[4])<<24 | uint32(d.buf[5])<<16 | uint32(d.buf[6])<<8 | uint32(d.buf[7])
+			n := int(uint32(d.buf[8])<<24 | uint32(d.buf[9])<<16 | uint32(d.buf[10])<<8 | uint32(d.buf[11]))
+			if typ != 0 {
+				d.buf = d.buf[12:]
+				continue
+			}
+			if len(d.buf) < 12+n {
+				if n > 0 && len(d.buf) >= 12+3 && !d.seen[id] {
+					// enough of the payload to classify already
+				} else {
+					return
+				}
+			}
+			if n > 0 && !d.seen[id] {
+				d.seen[id] = true
+				pl := d.buf[12:]
+				if len(pl) > n {
+					pl = pl[:n]
+				}
+				ms.mu.Lock()
+				ms.Streams[fmt.Sprintf("%s/%d", e.ListenerKey(), id)] = true
+				if len(pl) >= 2 && pl[0] == 0x16 && pl[1] == 0x03 {
+					ms.TLS++
+				} else {
+					ms.Clear++
+					show := pl
+					if len(show) > 24 {
+						show = show[:24]
+					}
+					r.Violate("unauthenticated-stream", ctx, fmt.Sprintf("socket %s: multiplexed stream %d starts with %q instead of a TLS handshake although transport security is configured", key, id, show))
+				}
+				ms.mu.Unlock()
+			}
+			if len(d.buf) < 12+n {
+				return
+			}
+			d.buf = d.buf[12+n:]
+		}
 	}
+	return ms
 }
 
 // HostDialEchoLate dials brokered id (net/rpc), echoes size bytes, waits, and
